@@ -196,7 +196,7 @@ class C11(SolverSuite):
         elif u < 0.16 and not any(o["op"] == "setp" for o in ops) and not spec["params"].get("refineSolution"):
             # the objective fails once at evaluation k: whatever the call pattern (a batch the caller catches the exception from,
             # or a Solve that contains it), the completed trials that follow are the same sequence
-            plan["faults"] = [{"a": "S0", "at_eval": rng.choice([2, 3, rng.randint(2, 20)]), "exc": rng.choice(["ValueError", "KeyboardInterrupt", "SimFault"]),
+            plan["faults"] = [{"a": "S0", "at_eval": rng.choice([1, 2, 3, rng.randint(2, 20)]), "exc": rng.choice(["ValueError", "KeyboardInterrupt", "SimFault"]),
                                "when": rng.choice(["before", "after"]), "persistent": False}]
             plan["continue_after_fault"] = True
             for _ in range(rng.randint(1, 3)):
@@ -279,13 +279,25 @@ class C11(SolverSuite):
             n = sumk + int(spec["params"]["itersLimit"]) + 2
         ref = solo_run(spec, [{"op": "create"}] + [{"op": "iterate", "k": 1}] * n, None, ofault, True)
         rep.n_exec += 1
-        if ref["aborted"]:
-            rep.inconclusive["ref_" + str(ref["aborted"])] += 1
-            return rep
-        rg = [(y, v) for (ph, y, v, f) in ref["calls"] if ph == "global" and f is None]
 
         def bad(clause, msg, locus="history"):
             rep.violations.append(core.Violation(self.prop, clause, msg, locus))
+        rg = [(y, v) for (ph, y, v, f) in ref["calls"] if ph == "global" and f is None]
+        if ofault and ofault[0]["at_eval"] == 1 and not ofault[0].get("persistent"):
+            # the very first evaluation failed: nothing had been recorded, so the run that follows IS the fault-free run
+            nff = min(n, 25)
+            ff = solo_run(spec, [{"op": "create"}] + [{"op": "iterate", "k": 1}] * nff)
+            rep.n_exec += 1
+            fg = [(y, v) for (ph, y, v, f) in ff["calls"] if ph == "global" and f is None]
+            L = min(len(fg), nff - 1)
+            if not ff["aborted"] and rg[:L] != fg[:L]:
+                dd = first_diff(rg[:L], fg[:L])
+                bad("retry_after_first_failure", "after the objective failed on the very first evaluation, stepping on gives %d trials, first difference "
+                    "from the fault-free run at trial %s: %r vs %r" % (len(rg), (dd[0] + 1) if dd else len(rg) + 1, dd[1] if dd else None, dd[2] if dd else fg[len(rg):len(rg) + 1]))
+                return rep
+        if ref["aborted"]:
+            rep.inconclusive["ref_" + str(ref["aborted"])] += 1
+            return rep
         d = first_diff(tg, rg[:len(tg)]) if not ofault else None     # (the faulted reference loses an interval: not the twin's run)
         if d:
             bad("twin_vs_stepwise", "Solve alone and one-at-a-time stepping differ at trial %d: %r vs %r" % (d[0] + 1, d[1], d[2]))
@@ -1183,8 +1195,10 @@ class C16(SolverSuite):
                     if rng.random() < 0.2:
                         ops.append({"a": "S0", "op": "results"})
                     persistent = rng.random() < 0.3
-                    if not persistent and rng.random() < 0.3:
-                        ops.append({"a": "S0", "op": "solve"})      # the failure was transient: the caller simply tries again
+                    if rng.random() < 0.3:
+                        # the caller simply tries again: after a transient failure the search carries on; if the objective is
+                        # still broken, the second Solve fails on its very first evaluation and must come back just the same
+                        ops.append({"a": "S0", "op": "solve"})
                     yield G.base_plan(self.prop, run_seed, {"S0": spec}, ops, clock=clock,
                                       faults=[{"a": "S0", "at_eval": k, "exc": exc, "when": when, "persistent": persistent,
                                                "noargs": rng.random() < 0.3}])
